@@ -21,11 +21,17 @@ ENTRY = {
                 "and decoded by a decoder written from doc/BINARY_FORMATS.md (2 frames, 36-byte record header / 48-byte summary header, documented offsets, "
                 "little-endian, type code 2/3, payload exactly the samples / float64 coefficients, bytes 0-1 = channel); every field must be recovered exactly "
                 "(NaN by class; float64 analysis values as their IEEE float32 rounding); non-trivial = the record has samples or coefficients. "
+                "Sequence family: one execution = 3 consecutive messages from the same converter (as the one publishing goroutine produces them), each with an independently chosen channel {0,65535} and "
+                "variable-length part (records: length x signed; summaries: coefficient sets of 0,1,2,3,64), every message decoded and compared in full right after its conversion "
+                "(classes c14-seq-*); non-trivial = the variable-length parts of the sequence differ. "
+                "Socket family: 1-2 batches of 1-3 records over channels {0,1,256}, which have 4, 0 and 2 coefficients (projectors are per channel) and 3-5 samples, through the real startSocket goroutine "
+                "and a ZMQ PUB socket to a SUB client; every record must arrive as its own two-frame message, in order, and decode to itself (all coefficients / samples); non-trivial = more than one record. "
                 "Race-probe part: one execution = 1-3 rounds of record batches for three channels pushed by the real PublishData (one goroutine per channel) into the channels of the real "
                 "startSocket(messageRecords) and startSocket(messageSummaries) goroutines, which convert the same records at the same time (free-running, GOMAXPROCS 4) in a race-detector build; "
                 "every race report with both accesses in repository code is a violation; non-trivial = at least two records were published",
         "assumptions": ["summary header length taken from the documented field table (last field at byte 40, 8 bytes = 48); the sentence above the table says 36, copied from the record section",
                         "channel index within 0..65535, trigger time within the UnixNano range",
+                        "a message is judged when it is handed over for sending (ZMQ copies on send); frames of earlier messages are not required to stay intact after the next conversion",
                         "sample count and pre-trigger count decoded as unsigned 32-bit, trigger time and frame as signed 64-bit two's complement",
                         "race-probe part: the race detector is happens-before based (a report does not depend on the actual timing of the goroutines) but keeps a bounded access history per word, "
                         "does not see accesses inside cgo/ZMQ and reports one pair of stacks once per process; the messages are not received (no SUB socket)"],
